@@ -122,6 +122,33 @@ def build_soc_glue(bus_dw, master_dw, bursting, ram_size, rom_size, ram_init, ro
     return soc
 
 
+def glue_pattern(n):
+    """Initial memory pattern, byte n: mixes low and high address bits (no two aligned words of any width 1..16
+    bytes carry the same bytes, so an access landing on the wrong words is visible on the initial content)."""
+    return (n * 37 + (n >> 3) * 101 + (n >> 6) * 59 + 5) & 0xFF
+
+
+def build_bus_glue(bus_std, bus_dw, m_dw, m_addressing, s_dw, mem_bytes=512):
+    """Adapters composed BY the SoC glue: a Wishbone master port -> SoCBusHandler.add_adapter(m2s) -> main bus of
+    the given standard / width -> add_adapter(s2m) <- a word-addressed wishbone.SRAM of the given width holding
+    `glue_pattern`.  (add_master/add_slave call add_adapter the same way and then build the interconnect, which
+    belongs to C06 / C08.)"""
+    import logging
+    from litex.soc.integration.soc import SoCBusHandler
+    logging.disable(logging.CRITICAL)
+    top = Top()
+    top.submodules.bus = SoCBusHandler(standard=bus_std, data_width=bus_dw, address_width=32)
+    top.master = wishbone.Interface(data_width=m_dw, address_width=32, addressing=m_addressing)
+    m_ad = top.bus.add_adapter("m", top.master, "m2s")
+    nbs = s_dw // 8
+    init = [sum(glue_pattern(w * nbs + k) << (8 * k) for k in range(nbs)) for w in range(mem_bytes // nbs)]
+    top.submodules.sram = wishbone.SRAM(mem_bytes, init=init,
+                                        bus=wishbone.Interface(data_width=s_dw, address_width=32, addressing="word"))
+    s_ad = top.bus.add_adapter("s", top.sram.bus, "s2m")
+    top.comb += m_ad.connect(s_ad)
+    return top
+
+
 def build_conv(dwm, dws, awm):
     """Converter alone: master and slave ports free."""
     top = Top()
